@@ -49,11 +49,20 @@ vars == <<mvars, ovars>>
 
 NoMid == <<0, "", 0>>
 Frame(sid, kind, size, len, code, rpc, mid) ==
-  [sid |-> sid, kind |-> kind, size |-> size, len |-> len, code |-> code, rpc |-> rpc, mid |-> mid]
+  [sid |-> sid, kind |-> kind, size |-> size, len |-> len, code |-> code, rpc |-> rpc, mid |-> mid, md |-> MD0]
+\* headers / close frames carry metadata
+FrameMD(sid, kind, code, md) == [Frame(sid, kind, 0, 0, code, 0, NoMid) EXCEPT !.md = md]
+
+\* the metadata values scripts can use (index = the n field of a sethdr / sendhdr / settrl op); the harness
+\* has the same table (lib/vlib/modelgen.py)
+MDTab == << [k \in {"_", "k1"} |-> IF k = "_" THEN <<>> ELSE <<"v1">>],
+            [k \in {"_", "k1", "k2"} |-> CASE k = "_" -> <<>> [] k = "k1" -> <<"v2">> [] OTHER -> <<"a", "b">>],
+            [k \in {"_", "t1"} |-> IF k = "_" THEN <<>> ELSE <<"tv1">>] >>
+MetaOps == {"sethdr", "sendhdr", "settrl"}
 
 EvWire(what, dir, f) ==
   [ev |-> what, dir |-> dir, sid |-> f.sid, kind |-> f.kind, size |-> f.size, len |-> f.len, rpc |-> f.rpc,
-   rev |-> 1, win |-> W, method |-> "m", mclass |-> "ok", mshape |-> "bidi", revs |-> <<0, 1>>, md |-> MD0, code |-> f.code, msg |-> "", det |-> "0"]
+   rev |-> 1, win |-> W, method |-> "m", mclass |-> "ok", mshape |-> "bidi", revs |-> <<0, 1>>, md |-> f.md, code |-> f.code, msg |-> "", det |-> "0"]
 
 EvOpStart(end, r, op, idx, size, code) ==
   [ev |-> "op.start", end |-> end, rpc |-> r, act |-> "m", op |-> op, shape |-> "bidi", timeout |-> 0, method |-> "m",
@@ -80,13 +89,14 @@ Unpublished == [k \in {"_", "unpublished"} |-> <<>>]
 (* Initial state                                                           *)
 
 CS0 == [ id |-> 0, ctx |-> "live", done |-> "", doneCode |-> 0, fin |-> 0, finWho |-> "", intable |-> FALSE,
-         published |-> FALSE, hdr |-> FALSE,
+         published |-> FALSE, hdr |-> FALSE, hdrMD |-> MD0, trl |-> MD0,
          snd |-> "idle", sleft |-> 0, ssize |-> 0, sfirst |-> TRUE, sres |-> 0, swin |-> W, nsent |-> 0, half |-> FALSE,
          rq |-> <<>>, rwin |-> W, rclosed |-> FALSE, rcancelled |-> FALSE, credit |-> 0,
          need |-> -1, msize |-> 0, mid |-> NoMid, mok |-> TRUE, ready |-> FALSE, ngot |-> 0,
          watch |-> "none", wstep |-> 0, cancelOwed |-> FALSE, sfailed |-> FALSE ]
 
 SS0 == [ st |-> "none", ctx |-> "live", half |-> "", closed |-> FALSE, sentHdr |-> FALSE,
+         hdrs |-> MD0, trls |-> MD0, snapH |-> MD0, snapT |-> MD0, meta |-> 0,
          h |-> "none", finL |-> 0, finH |-> 0, finLcode |-> 0, retCode |-> 0,
          snd |-> "idle", sleft |-> 0, ssize |-> 0, sfirst |-> TRUE, sres |-> 0, swin |-> W, nsent |-> 0,
          rq |-> <<>>, rwin |-> W, rclosed |-> FALSE, rcancelled |-> FALSE, credit |-> 0,
@@ -299,7 +309,26 @@ CliRecvEnd(r) ==
   /\ CDoneOp(r)
   /\ UNCHANGED cs
   /\ OOpRet(EvOpRetTerminal(r, IF cs[r].done = "eof" THEN "eof" ELSE "err", cs[r].doneCode,
-                           IF ~cs[r].published /\ cs[r].done \in {"eof", "status"} THEN Unpublished ELSE MD0))
+                           IF ~cs[r].published /\ cs[r].done \in {"eof", "status"} THEN Unpublished
+                           ELSE IF cs[r].done \in {"eof", "status"} THEN cs[r].trl ELSE MD0))
+  /\ UNCHANGED <<c2s, s2c, car, cli, srv, ss, nf>>
+
+\* Header() (:647-667): waits for the headers, the end of the stream, or its context; Trailer() does not wait
+CliHeaderRet(r) ==
+  /\ CBusy(r) = "header" /\ (cs[r].hdr \/ cs[r].published \/ cs[r].ctx # "live")
+  /\ CDoneOp(r)
+  /\ UNCHANGED cs
+  /\ LET ok == cs[r].hdr \/ cs[r].published
+     IN OOpRet([ev |-> "op.ret", end |-> "c", rpc |-> r, act |-> "m", op |-> "header", cls |-> IF ok THEN "ok" ELSE "err",
+                code |-> IF ok THEN 0 ELSE 1, msg |-> "", det |-> "0", idx |-> 0, md |-> IF cs[r].hdr THEN cs[r].hdrMD ELSE MD0])
+  /\ UNCHANGED <<c2s, s2c, car, cli, srv, ss, nf>>
+
+CliTrailerRet(r) ==
+  /\ CBusy(r) = "trailer"
+  /\ CDoneOp(r)
+  /\ UNCHANGED cs
+  /\ OOpRet([ev |-> "op.ret", end |-> "c", rpc |-> r, act |-> "m", op |-> "trailer", cls |-> "ok", code |-> 0, msg |-> "", det |-> "0",
+             idx |-> 0, md |-> IF cs[r].published THEN cs[r].trl ELSE MD0])
   /\ UNCHANGED <<c2s, s2c, car, cli, srv, ss, nf>>
 
 \* finishStream (:848-879): CAS on done is the first step (taken by the caller of
@@ -328,11 +357,11 @@ CliDeliver ==
         /\ IF r = 0
            THEN \* used and disposed of stream: ignore (ids above lastID cannot occur with this server)
                 UNCHANGED <<cs, cli>>
-           ELSE CASE f.kind = "hdr" -> SetC(r, [cs[r] EXCEPT !.hdr = TRUE]) /\ UNCHANGED cli
+           ELSE CASE f.kind = "hdr" -> SetC(r, [cs[r] EXCEPT !.hdr = TRUE, !.hdrMD = IF cs[r].hdr THEN @ ELSE f.md]) /\ UNCHANGED cli
                   [] f.kind = "close" ->
                        IF cs[r].done # "" THEN UNCHANGED <<cs, cli>>
                        ELSE /\ SetC(r, [cs[r] EXCEPT !.done = IF f.code = 0 THEN "eof" ELSE "status", !.doneCode = f.code,
-                                                     !.fin = 1, !.finWho = "loop"])
+                                                     !.fin = 1, !.finWho = "loop", !.trl = f.md])
                             /\ cli' = [cli EXCEPT !.busy = r]
                   [] f.kind = "wu" -> SetC(r, [cs[r] EXCEPT !.swin = @ + f.len]) /\ UNCHANGED cli
                   [] f.kind \in {"msg", "more"} ->
@@ -516,9 +545,43 @@ SrvOpStart(r) ==
                \* the handler returns: finishStream(status) run by the handler goroutine
                /\ SetS(r, [ss[r] EXCEPT !.h = "returned", !.finH = 1, !.retCode = o.code])
                /\ OOpStart(EvOpStart("s", r, "ret", 0, 0, o.code))
+          [] o.op \in MetaOps ->
+               /\ SetS(r, [ss[r] EXCEPT !.meta = 1])
+               /\ OOpStart([EvOpStart("s", r, o.op, 0, 0, 0) EXCEPT !.md = MDTab[o.n]])
           [] OTHER ->
                /\ UNCHANGED ss
                /\ OOpStart(EvOpStart("s", r, o.op, 0, 0, 0))
+  /\ UNCHANGED <<c2s, s2c, car, cli, cs, srv, nf>>
+
+\* SetHeader / SendHeader / SetTrailer (:370-450), under writeMu: headers can be set until they were sent
+\* (with the first message, by SendHeader, or with the close frame); SendHeader sends them now
+SrvMetaDo(r) ==
+  /\ SBusy(r) \in MetaOps /\ ss[r].meta = 1
+  /\ LET o == SOp(r)
+         md == MDTab[o.n]
+         late == ss[r].sentHdr \/ ss[r].closed
+     IN CASE o.op = "settrl" ->
+               /\ SetS(r, [ss[r] EXCEPT !.trls = IF ss[r].closed THEN @ ELSE MDJoin(@, md), !.meta = 2])
+               /\ UNCHANGED s2c /\ OSkip
+          [] o.op = "sethdr" ->
+               /\ SetS(r, [ss[r] EXCEPT !.hdrs = IF late THEN @ ELSE MDJoin(@, md), !.meta = IF late THEN 3 ELSE 2])
+               /\ UNCHANGED s2c /\ OSkip
+          [] o.op = "sendhdr" ->
+               IF late
+               THEN /\ SetS(r, [ss[r] EXCEPT !.meta = 3]) /\ UNCHANGED s2c /\ OSkip
+               ELSE \* (the frame cannot be sent any more: SendHeader returns the transport's error)
+                    /\ SetS(r, [ss[r] EXCEPT !.hdrs = MDJoin(@, md), !.sentHdr = TRUE, !.meta = IF S2CUp THEN 2 ELSE 3])
+                    /\ IF S2CUp
+                       THEN /\ s2c' = Append(s2c, FrameMD(cs[r].id, "hdr", 0, MDJoin(ss[r].hdrs, md)))
+                            /\ OWireSend(EvWire("wire.send", "s2c", FrameMD(cs[r].id, "hdr", 0, MDJoin(ss[r].hdrs, md))))
+                       ELSE /\ UNCHANGED s2c /\ OSkip
+  /\ UNCHANGED <<c2s, car, cli, cs, srv, app, nf>>
+
+SrvMetaRet(r) ==
+  /\ SBusy(r) \in MetaOps /\ ss[r].meta \in {2, 3}
+  /\ SetS(r, [ss[r] EXCEPT !.meta = 0])
+  /\ SDoneOp(r)
+  /\ OOpRet(EvOpRet("s", r, SOp(r).op, IF ss[r].meta = 2 THEN "ok" ELSE "err", IF ss[r].meta = 2 THEN 0 ELSE -1, 0))
   /\ UNCHANGED <<c2s, s2c, car, cli, cs, srv, nf>>
 
 \* SendMsg (:451-476): headers first (lazily), under writeMu
@@ -526,8 +589,8 @@ SrvEmitHdr(r) ==
   /\ ss[r].snd = "hdr"
   /\ SetS(r, [ss[r] EXCEPT !.snd = "need", !.sentHdr = TRUE])
   /\ IF S2CUp
-     THEN /\ s2c' = Append(s2c, Frame(cs[r].id, "hdr", 0, 0, 0, 0, NoMid))
-          /\ OWireSend(EvWire("wire.send", "s2c", Frame(cs[r].id, "hdr", 0, 0, 0, 0, NoMid)))
+     THEN /\ s2c' = Append(s2c, FrameMD(cs[r].id, "hdr", 0, ss[r].hdrs))
+          /\ OWireSend(EvWire("wire.send", "s2c", FrameMD(cs[r].id, "hdr", 0, ss[r].hdrs)))
      ELSE /\ UNCHANGED s2c /\ OSkip
   /\ UNCHANGED <<c2s, car, cli, cs, srv, app, nf>>
 
@@ -631,6 +694,7 @@ SrvFinStep(r, who) ==
                                 ELSE ss[r]
                    [] st = 4 -> IF ss[r].closed THEN ss[r]
                                 ELSE [ss[r] EXCEPT !.closed = TRUE, !.closeOwed = IF ss[r].sentHdr THEN 2 ELSE 1,
+                                                   !.snapH = ss[r].hdrs, !.snapT = ss[r].trls,
                                                    \* on the wire a plain context.Canceled error is status Unknown (2)
                                                    !.sentHdr = TRUE, !.closeCode = IF who = "L" THEN 2 ELSE code]))
   /\ srv' = IF who = "L" /\ st = 4 THEN [srv EXCEPT !.busy = 0] ELSE srv
@@ -648,8 +712,8 @@ HandlerRetDone(r) ==
 \* the async close sender (:629-647): headers frame if not yet sent, then close_stream
 SrvEmitClose(r) ==
   /\ ss[r].closeOwed \in {1, 2}
-  /\ LET f == IF ss[r].closeOwed = 1 THEN Frame(cs[r].id, "hdr", 0, 0, 0, 0, NoMid)
-              ELSE Frame(cs[r].id, "close", 0, 0, ss[r].closeCode, 0, NoMid)
+  /\ LET f == IF ss[r].closeOwed = 1 THEN FrameMD(cs[r].id, "hdr", 0, ss[r].snapH)
+              ELSE FrameMD(cs[r].id, "close", ss[r].closeCode, ss[r].snapT)
      IN /\ SetS(r, [ss[r] EXCEPT !.closeOwed = IF @ = 1 THEN 2 ELSE 0])
         /\ IF S2CUp
            THEN /\ s2c' = Append(s2c, f)
@@ -682,6 +746,9 @@ InternalOf(r) ==
   \/ cs[r].snd = "res"
   \/ CBusy(r) = "send" /\ cs[r].snd = "done"
   \/ CBusy(r) = "half"
+  \/ CBusy(r) = "header" /\ (cs[r].hdr \/ cs[r].published \/ cs[r].ctx # "live")
+  \/ CBusy(r) = "trailer"
+  \/ SBusy(r) \in MetaOps
   \/ CBusy(r) = "recv" /\ cs[r].credit = 0 /\ (cs[r].ready \/ cs[r].rcancelled \/ cs[r].rq # <<>> \/ cs[r].rclosed)
   \/ cs[r].credit > 0
   \/ cs[r].fin \in 1..3 /\ (cs[r].finWho = "loop" => cli.busy = r)
@@ -738,6 +805,7 @@ Internal ==
        \/ CliHalf(r) \/ CliHalfRet(r)
        \/ CliDequeue(r) \/ CliCredit(r) \/ CliRecvMsgRet(r) \/ CliRecvEnd(r)
        \/ CliFinStep(r) \/ CliWatchFire(r) \/ CliCancelCAS(r) \/ CliCancelRcv(r) \/ CliEmitCancel(r)
+       \/ CliHeaderRet(r) \/ CliTrailerRet(r) \/ SrvMetaDo(r) \/ SrvMetaRet(r)
        \/ HandlerStart(r) \/ SrvEmitReject(r)
        \/ SrvEmitHdr(r) \/ SrvReserve(r) \/ SrvEmit(r) \/ SrvSendAbort(r) \/ SrvSendRet(r)
        \/ SrvRecvCtx(r) \/ SrvDequeue(r) \/ SrvCredit(r) \/ SrvRecvMsgRet(r) \/ SrvRecvEnd(r)
@@ -778,6 +846,10 @@ Next ==
   \/ \E r \in RPCs : CliCancelCAS(r)
   \/ \E r \in RPCs : CliCancelRcv(r)
   \/ \E r \in RPCs : CliEmitCancel(r)
+  \/ \E r \in RPCs : CliHeaderRet(r)
+  \/ \E r \in RPCs : CliTrailerRet(r)
+  \/ \E r \in RPCs : SrvMetaDo(r)
+  \/ \E r \in RPCs : SrvMetaRet(r)
   \/ \E r \in RPCs : HandlerStart(r)
   \/ \E r \in RPCs : SrvEmitReject(r)
   \/ \E r \in RPCs : SrvEmitHdr(r)
